@@ -129,7 +129,7 @@ pub fn special_blk_payload(rng: &mut Rng, max: usize, newlines: bool) -> Vec<u8>
         .collect()
 }
 
-#[derive(Clone, Copy, PartialEq)]
+#[derive(Clone, Copy, PartialEq, Debug)]
 pub enum Payloads {
     /// no separators, no newline
     Plain,
